@@ -50,6 +50,7 @@ type EnvOpt struct {
 	PtrKeys       bool // also declare a key struct that holds a pointer (legal Go map key, compared by identity)
 	NoFloatKeys   bool
 	NoBlankFields bool // by default one struct in four has a blank field (_ T) of a basic type
+	NoLists       bool // by default half of the environments declare a list node (and a tree node) struct
 	NoGenerics    bool // by default one environment in three declares 1-2 generic structs and instantiates each twice
 	NoAliases     bool // by default half of the environments declare 1-2 aliases and use them as field / argument types
 	NoUnicode     bool // by default one environment in five gives its general structs names that start with a multi-byte letter
@@ -346,6 +347,17 @@ func DrawEnv(t *rapid.T, opt EnvOpt) *Env {
 		}
 		e.Structs = append(e.Structs, d)
 		_ = i
+	}
+	if !opt.NoLists && rapid.Bool().Draw(t, "liststructs") {
+		// list and tree shaped structs: the last field points to the struct's own type
+		l := &Decl{Name: "L0", IsStruct: true, Recursive: true}
+		l.Fields = []Field{{Name: e.fieldName(t, 0), Type: B(pick(t, "listval", []string{"int", "string", "int8", "float64"}))}, {Name: "Next", Type: PtrTo(NamedT(l))}}
+		e.Structs = append(e.Structs, l)
+		if rapid.Bool().Draw(t, "treestruct") {
+			tr := &Decl{Name: "Tr0", IsStruct: true, Recursive: true}
+			tr.Fields = []Field{{Name: "K", Type: B("int")}, {Name: "Left", Type: PtrTo(NamedT(tr))}, {Name: "Right", Type: PtrTo(NamedT(tr))}}
+			e.Structs = append(e.Structs, tr)
+		}
 	}
 	for _, d := range gen {
 		d.Recursive = NamedT(d).Has(func(x *Type) bool { return false }) // placeholder, computed below
